@@ -3,6 +3,7 @@ package main
 import (
 	"context"
 	"fmt"
+	"github.com/logrange/range/pkg/records/chunk/chunkfs"
 	"io"
 	"io/ioutil"
 	"sort"
@@ -40,6 +41,18 @@ type E2EReplay struct {
 	// conc: one partition, one batch per writer
 	Batches [][]LE `json:"batches,omitempty"`
 	Note    string `json:"note,omitempty"`
+	// pos: the partition service runs without the journal controller's configuration (no limit on the write path)
+	NoLimit bool `json:"no_limit,omitempty"`
+	// tail: also the request validation of both queriers, a wait that expires, requests after the server stopped
+	Extras bool `json:"extras,omitempty"`
+}
+
+// the MaxRecordSize the readers work with: 0 in the configuration means the dependency's default
+func effRec(maxRec int64) int64 {
+	if maxRec <= 0 {
+		return chunkfs.ChnkMaxRecordSize
+	}
+	return maxRec
 }
 
 const flushDeadline = 20 * time.Second
@@ -466,6 +479,7 @@ func runE2E(rp E2EReplay) (*e2eOut, error) {
 	sort.Strings(keys)
 	var reads, chunks []string
 	multiChunk := false
+	perPart := map[string][]RV{}
 	for _, key := range keys {
 		want := mandatory(expected[key])
 		var info struct {
@@ -542,6 +556,7 @@ func runE2E(rp E2EReplay) (*e2eOut, error) {
 			got = append(got, RV{e.Timestamp, []byte(e.Message), e.Tags, e.Fields})
 		}
 		reads = append(reads, GPair(GStr(key), gOk(gRVs(got))))
+		perPart[key] = got
 		if berr == nil {
 			if len(bres.Events) != len(got) {
 				fail("rpc-vs-backend", fmt.Sprintf("partition %s: %d vs %d events", key, len(got), len(bres.Events)))
@@ -573,9 +588,60 @@ func runE2E(rp E2EReplay) (*e2eOut, error) {
 					fail("readback-tags", fmt.Sprintf("partition %s event %d: tags %q", key, i, g.Tags))
 				case g.Flds != field.Fields(string(e.flds)).AsKVString():
 					fail("readback-fields", fmt.Sprintf("partition %s event %d: fields %q, expected %q", key, i, g.Flds, field.Fields(string(e.flds)).AsKVString()))
+				default:
+					// the text the reader gets means the fields that were written: it parses back to the stored list
+					if back, err := field.NewFieldsFromKVString(g.Flds); err != nil || string(back) != string(e.flds) {
+						fail("readback-fields-reparse", fmt.Sprintf("partition %s event %d: fields text %q parses to %x (%v), written %x", key, i, g.Flds, []byte(back), err, e.flds))
+					}
 				}
 			}
 		}
+	}
+	// one query over all partitions (the merge of the sources, model.Mixer), read in pages of 3 on a server-side cursor
+	// (WaitTimeout > 0: the cursor is kept between the pages, the event it has looked at is copied out of the read
+	// buffers when the cursor is released): restricted to a partition it is the read of that partition - same events,
+	// same order, same content
+	if len(keys) >= 2 && out.viol == nil {
+		totalEv := 0
+		for _, key := range keys {
+			totalEv += len(perPart[key])
+		}
+		by := map[string][]RV{}
+		next := api.QueryRequest{Query: "SELECT LIMIT 10000", Limit: 3, WaitTimeout: 1}
+		for n, pages := 0, 0; n < totalEv && pages < totalEv+2; pages++ {
+			var mres api.QueryResult
+			if err := srv.Client.Query(ctx, &next, &mres); err != nil {
+				return nil, fmt.Errorf("rpc query: %v", err)
+			}
+			if mres.Err != nil {
+				fail("merged-read-differs", fmt.Sprintf("page %d of the query over all partitions failed: %v", pages, mres.Err))
+				break
+			}
+			if len(mres.Events) == 0 {
+				break
+			}
+			for _, e := range mres.Events {
+				by[e.Tags] = append(by[e.Tags], RV{e.Timestamp, []byte(e.Message), e.Tags, e.Fields})
+				n++
+			}
+			next = mres.NextQueryRequest
+			next.Limit, next.WaitTimeout = 3, 1
+		}
+		for _, key := range keys {
+			single := perPart[key]
+			if len(by[key]) != len(single) {
+				fail("merged-read-differs", fmt.Sprintf("partition %s: %d events in the read of the partition, %d in the merged read", key, len(single), len(by[key])))
+				continue
+			}
+			for i, e := range single {
+				m := by[key][i]
+				if m.Ts != e.Ts || string(m.Msg) != string(e.Msg) || m.Flds != e.Flds {
+					fail("merged-read-differs", fmt.Sprintf("partition %s event %d: %d %q %q in the merged read, %d %q %q in the read of the partition", key, i, m.Ts, m.Msg, m.Flds, e.Ts, e.Msg, e.Flds))
+					break
+				}
+			}
+		}
+		out.tags = append(out.tags, "e2e:merged-read")
 	}
 	// every stored field value that may be read: make sure the as_kv table covers what the model computes
 	for _, exp := range expected {
@@ -778,6 +844,11 @@ func runPos(rp E2EReplay) (*e2eOut, error) {
 		return nil, err
 	}
 	defer ms.Stop()
+	limitRec := effRec(rp.MaxRec)
+	if rp.NoLimit {
+		// a partition.Service that was not given the journal controller's configuration knows no limit
+		ms.Partitions.JCfg = nil
+	}
 	ctx := context.Background()
 	out := &e2eOut{}
 	pressure := ""
@@ -820,7 +891,7 @@ func runPos(rp E2EReplay) (*e2eOut, error) {
 		// the events before the first oversize one are stored; the batch is acknowledged iff there is none
 		nst := len(rq.Les)
 		for k, e := range rq.Les {
-			if nst == len(rq.Les) && int64(recordSize(e.Msg, e.Flds)) > rp.MaxRec {
+			if nst == len(rq.Les) && !rp.NoLimit && int64(recordSize(e.Msg, e.Flds)) > limitRec {
 				nst = k
 			}
 		}
@@ -830,7 +901,7 @@ func runPos(rp E2EReplay) (*e2eOut, error) {
 		should := kok && nst == len(rq.Les)
 		switch {
 		case ack && kok && !should:
-			fail("oversize-record-acknowledged-unreadable", fmt.Sprintf("request %d (direct): event %d exceeds MaxRecordSize=%d; the write was acknowledged", i, nst, rp.MaxRec))
+			fail("oversize-record-acknowledged-unreadable", fmt.Sprintf("request %d (direct): event %d exceeds MaxRecordSize=%d; the write was acknowledged", i, nst, limitRec))
 		case ack != should:
 			fail("ack-mismatch", fmt.Sprintf("request %d (direct): acknowledged=%v, tags ok=%v, oversize event=%v, err=%v", i, ack, kok, nst < len(rq.Les), err))
 		}
@@ -938,7 +1009,15 @@ func runPos(rp E2EReplay) (*e2eOut, error) {
 	if pressure != "" {
 		return nil, fmt.Errorf("the harness process is running out of file descriptors (%s): raise `ulimit -n`; no verdict", pressure)
 	}
-	out.coq = GApp("KE2E", gCfg(rp.MaxChunk, rp.MaxRec), "[]", ntab.gallina(), "[]", GList(coqReqs),
+	cfgTerm := gCfg(rp.MaxChunk, limitRec)
+	if rp.NoLimit {
+		cfgTerm = gCfgW(rp.MaxChunk, limitRec, 0)
+		out.tags = append(out.tags, "pos:no-write-limit")
+	}
+	if rp.MaxRec <= 0 {
+		out.tags = append(out.tags, "pos:default-max-record-size")
+	}
+	out.coq = GApp("KE2E", cfgTerm, "[]", ntab.gallina(), "[]", GList(coqReqs),
 		GList(acks), GList(wes), "[]", GList(chunks))
 	out.nontriv = multi
 	if spans {
